@@ -207,7 +207,7 @@ class ExprMixin:
             cb = vals.is_concrete_bool(c)
             if cb is not None:
                 return self.ev(node.body if cb else node.orelse, env)
-            return vals.ite(c, self.ev(node.body, env), self.ev(node.orelse, env))
+            return vals.ite(c, self.deref(self.ev(node.body, env)), self.deref(self.ev(node.orelse, env)))
         if self.path.branch(c):
             return self.ev(node.body, env)
         return self.ev(node.orelse, env)
